@@ -30,7 +30,8 @@ def check(F, rep):
     nt, _ = call_result_tests(f, nx[0][0])
     best = None
     for n, pl in f.vars:
-        if n == "best" and not pl.get("p"):
+        # the candidate accumulator, whatever it is called: Option<(PathSelectionData, key)>
+        if not pl.get("p") and re.match(r"^core::option::Option<\(.*PathSelectionData", str(f.locals[pl["l"]])):
             best = pl["l"]
     rep.ob("selection", best is not None, site(f), "candidate slot `best` found", SEL + "|best-var")
     if best is None:
@@ -102,8 +103,14 @@ def ranking(F, rep, f):
     du = defuse(f)
     slots = {}
     for n, pl in f.vars:
-        if n in ("best", "current_key") and not pl.get("p") and str(f.locals[pl["l"]]).startswith("core::option::Option<"):
-            slots[n] = pl["l"]
+        # accumulators by type, not by name
+        ty = str(f.locals[pl["l"]])
+        if pl.get("p"):
+            continue
+        if re.match(r"^core::option::Option<\(.*PathSelectionData", ty):
+            slots["best"] = pl["l"]
+        elif re.match(r"^core::option::Option<\(.*TransportType, i128\)>$", ty) and sum(1 for b_, i_, s_ in f.stmts() if s_["k"] == "a" and s_["lhs"] == {"l": pl["l"]}) >= 2:
+            slots["current_key"] = pl["l"]
     rep.ob("ranking", set(slots) == {"best", "current_key"}, site(f), "accumulators `best` and `current_key` found: %s" % sorted(slots), skey(F, f, "slots"))
     if set(slots) != {"best", "current_key"}:
         return
